@@ -523,6 +523,10 @@ class World:
         elif k == 'PresenceDown':
             b.raw_delete('/server.presence/' + sname(op[1]))
             m.process_server_presence(b.list('/server.presence'))
+        elif k == 'PresenceUpRaw':
+            # the node registers while no master is looking (failover window): nothing is processed until the restart
+            if not b.exists('/server.presence/' + sname(op[1])):
+                b.raw_put('/server.presence/' + sname(op[1]), {})
         elif k == 'PresenceBounce':
             b.raw_delete('/server.presence/' + sname(op[1]))
             b.raw_put('/server.presence/' + sname(op[1]), {})
@@ -870,6 +874,8 @@ def run_history(case, crash_points=True, want=('c09', 'c10', 'c11'), inject=None
             try:
                 if op[0] == 'Restart':
                     _do_restart(w, hits, stats, taint)
+                    if cell_hook is not None:
+                        cell_hook(w, 'after-restart')
                 elif op[0] == 'MasterCycle':
                     if w.renew_requests:
                         w.m.up_to_date = False
@@ -1249,11 +1255,18 @@ def gen_case(rng, profile='c10', max_ops=None):
                'ServerRecord': 4, 'ServerDeleteApi': 2, 'Deliver': 1, 'Allocations': 2, 'IdentityGroup': 3,
                'IdentityGroupDeleted': 1, 'ServerState': 3, 'AppsBlacklist': 1, 'Priority': 2, 'Renew': 2,
                'Tick': 3, 'MasterCycle': 12, 'Restart': 3, 'RunningAll': 1, 'PendingStartCheck': 1,
-               'OutageThenRestart': 2, 'ShrinkThenRestart': 1, 'DeleteRace': 1}
+               'OutageThenRestart': 2, 'ShrinkThenRestart': 1, 'DeleteRace': 1, 'FlapAcrossRestart': 0}
     if profile == 'c11':
         weights.update({'Restart': 7, 'PresenceBounce': 4, 'IdentityGroup': 5, 'ServerRecord': 6})
     if profile == 'c09':
         weights.update({'ServerDeleteApi': 3, 'IdentityGroup': 5, 'Renew': 3})
+    if profile == 'c08':
+        # server failures against the retention clock, across master restarts and server reloads; nothing that the
+        # statement of C08 exempts (no blacklist, identity-group or allocation changes, no renewals, no deletions)
+        weights.update({'PresenceDown': 9, 'PresenceUp': 7, 'PresenceBounce': 3, 'ServerRecord': 5, 'Restart': 6,
+                        'Tick': 8, 'MasterCycle': 14, 'OutageThenRestart': 3, 'ServerDeleteApi': 0, 'DeleteRace': 0,
+                        'Allocations': 0, 'IdentityGroup': 0, 'IdentityGroupDeleted': 0, 'ShrinkThenRestart': 0,
+                        'AppsBlacklist': 0, 'Renew': 0, 'Priority': 1, 'ServerState': 2, 'Deliver': 0, 'FlapAcrossRestart': 5})
     kinds = list(weights)
     wts = [weights[k] for k in kinds]
     pending_delete = False
@@ -1351,6 +1364,42 @@ def gen_case(rng, profile='c10', max_ops=None):
                 ops.append(['PresenceDown', i])
                 ops.append(['Tick', rng.choice([1, 40, 400])])
                 ops.append(['Restart'])
+        elif k == 'FlapAcrossRestart':
+            # a server fails, comes back inside the retention window, the master is replaced (or the server record is
+            # reloaded) while it is up again, and much later it fails a second time: retention counts from the SECOND
+            # failure
+            up = [i for i in existing if sstate[i]['up']]
+            if up:
+                i = rng.choice(up)
+                ops.append(['Tick', 2])
+                ops.append(['MasterCycle'])
+                ops.append(['PresenceDown', i])
+                ops.append(['Tick', rng.choice([1, 5, 20])])
+                ops.append(['MasterCycle'])
+                if rng.random() < 0.6:
+                    # it comes back while the master is being replaced
+                    ops.append(['PresenceUpRaw', i])
+                    ops.append(['Tick', 2])
+                    ops.append(['Restart'])
+                elif rng.random() < 0.6:
+                    ops.append(['PresenceUp', i])
+                    ops.append(['Tick', 2])
+                    ops.append(['Restart'])
+                else:
+                    ops.append(['PresenceUp', i])
+                    ops.append(['Tick', 2])
+                    srv = {kk: vv for kk, vv in sstate[i].items() if kk in ('id', 'rack', 'cap', 'partition', 'traits')}
+                    srv['cap'] = [srv['cap'][0] + 1000, srv['cap'][1], srv['cap'][2]]
+                    sstate[i] = dict(srv, up=True, exists=True)
+                    ops.append(['ServerRecord', srv])
+                ops.append(['Tick', 2])
+                ops.append(['MasterCycle'])
+                ops.append(['Tick', rng.choice([40, 320, 700])])
+                ops.append(['MasterCycle'])
+                ops.append(['PresenceDown', i])
+                sstate[i]['up'] = False
+                ops.append(['Tick', rng.choice([1, 2, 10])])
+                ops.append(['MasterCycle'])
         elif k == 'ShrinkThenRestart' and gids:
             ops.append(['Tick', 2])
             ops.append(['MasterCycle'])
